@@ -130,7 +130,8 @@ def case_strategy(draw):
     nfiles = draw(st.integers(1, 4))
     sources = []
     for _ in range(nfiles):
-        kind = draw(st.sampled_from(["good", "good", "good", "good.gz", "missing", "truncated", "garbage", "empty"]))
+        kind = draw(st.sampled_from(["good", "good", "good", "good.gz", "missing", "truncated", "garbage", "empty",
+                                     "damaged-exttype", "damaged-subtype"]))
         recs = [draw(rec_spec()) for _ in range(draw(st.integers(0, 5)))] if kind not in ("missing", "garbage", "empty") else []
         sources.append({"kind": kind, "recs": recs, "cut": draw(st.integers(0, 10**6)),
                         "garbage": draw(st.binary(min_size=1, max_size=30)) if kind == "garbage" else b""})
@@ -206,6 +207,34 @@ def make_sources(case, tmp):
                 except refcodec.FormatError:
                     pass
             recs = recs[:n]
+        if kind.startswith("damaged") and recs:
+            # a well-formed frame that is not a flow.record object: the type byte of one record frame's msgpack
+            # extension (or the object subtype inside it) is overwritten; everything before that frame is intact
+            data = bytearray(open(p, "rb").read())
+            frames, _ = refcodec.split_frames(bytes(data))
+            rec_frames = []
+            for st_, _, payload in frames:
+                try:
+                    v = refcodec.unpack_exact(payload)
+                    if not isinstance(v, bytes) and refcodec.decode_ext14(v)[0] == refcodec.T_RECORD:
+                        rec_frames.append((st_, payload))
+                except refcodec.FormatError:
+                    pass
+            k = s["cut"] % len(rec_frames)
+            st_, payload = rec_frames[k]
+            hdr = {0xC7: 2, 0xC8: 3, 0xC9: 5}.get(payload[0])
+            if hdr is None:
+                raise RuntimeError("harness: record frame does not start with an ext8/16/32 header: %r" % payload[:4])
+            off = st_ + 4 + hdr  # position of the ext type byte; the packed [subtype, value] array follows it
+            if kind == "damaged-exttype":
+                data[off] = 0x55
+            else:
+                if data[off + 1] != 0x92:
+                    raise RuntimeError("harness: ext payload is not a 2-array: %r" % bytes(data[off + 1: off + 4]))
+                data[off + 2] = 0x7F
+            with open(p, "wb") as f:
+                f.write(bytes(data))
+            recs = recs[:k]
         paths.append(p)
         expected.append(recs)
     return paths, expected
@@ -332,7 +361,7 @@ def check(case, ctx, subprocess_mode=False):
             raise RuntimeError("harness: reference pipeline failed: %r" % (ref,))
         expected, n_in, n_kept = ref.value
         out = case["out"]
-        bad = sum(1 for s in case["sources"] if s["kind"] in ("missing", "truncated", "garbage", "empty"))
+        bad = sum(1 for s in case["sources"] if s["kind"] in ("missing", "truncated", "garbage", "empty", "damaged-exttype", "damaged-subtype"))
         ctx.cls("out:" + out, "bad-sources:%d" % bad, "multi-ts:%s" % case["multi_ts"], "split:%s" % bool(case["split"]),
                 "no-compile:%s" % case["no_compile"])
         for s in case["sources"]:
@@ -379,7 +408,7 @@ def check(case, ctx, subprocess_mode=False):
         if subprocess_mode:
             env = dict(os.environ, PYTHONPATH=REPO)
             stdin_f = None
-            if case["sources"][0]["kind"] in ("good", "good.gz", "truncated"):
+            if case["sources"][0]["kind"] in ("good", "good.gz", "truncated", "damaged-exttype", "damaged-subtype"):
                 # the first source arrives on standard input (codec and container are sniffed from the pipe)
                 stdin_f = open(paths[0], "rb")
                 argv[0] = "-"
